@@ -355,6 +355,24 @@ def r4_wiring(P, rep, ctx):
     full = [i for i, v in af.returns() if not (isinstance(v, ast.Dict) and not v.keys)]
     rep.check(bool(empty) and bool(e_rets) and bool(full) and af.all_hit_before(e_rets, edges=empty) and all(af.hit_before(af.g.exit, nodes=e_rets, src_edge=e) for e in empty), "C18.R4", an.qual, "an empty diff annotates nothing; a non-empty one is never cut short", an.loc(), construct="annotate: empty diff",
               message="annotate returns the empty listing for a non-empty diff (or goes on with an empty one)")
+    # the snapshot a later diff is taken against is recorded only after the packer has processed the diff completely:
+    # `_finalize` (stores the new hashsums as packer info) is reached only when `packer.update` / `packer.pack` returned
+    # normally -- never from a `finally:` / `except:` around that call (a packer fault would record the new snapshot, and the
+    # retry diff would omit every path that was not processed)
+    for q, pc in (("packer.PGPacker.update", "update"), ("packer.PGPacker.pack", "pack")):
+        ufi = P.func(q)
+        ug = ctx.cfg(ufi)
+        pcalls = [n.idx for n in ug.nodes if any(call_attr(c) == pc and norm(c.func).startswith("packer.") for c in ug.calls(n.idx))]
+        fins = [n.idx for n in ug.nodes if any(call_attr(c) == "_finalize" for c in ug.calls(n.idx))]
+        if not pcalls or not fins:
+            raise AnalysisError(f"C18.R4: {q}: packer.{pc}(..) / self._finalize(..) call not found")
+        ok = all(ug.every_path_passes(pcalls, f_) for f_ in fins)
+        in_cleanup = []
+        for t in walk_local(ufi.node):
+            if isinstance(t, ast.Try) and any(call_attr(c) == pc for b in t.body for c in local_calls(b)):
+                in_cleanup += [c for b in list(t.finalbody) + [b2 for h in t.handlers for b2 in h.body] for c in local_calls(b) if call_attr(c) == "_finalize"]
+        rep.check(ok and not in_cleanup, "C18.R4", ufi.qual, f"the new snapshot is recorded only after packer.{pc} returned normally", ufi.loc(in_cleanup[0]) if in_cleanup else ufi.loc(), construct=f"_finalize after packer.{pc}",
+                  message=f"{ufi.qual} records the new directory snapshot (self._finalize) {'in the clean-up of the try around' if in_cleanup else 'without passing'} packer.{pc}: after a packer fault the container claims the new state and the next diff omits the unprocessed paths")
 
 
 def r3_status(P, rep, ctx):
